@@ -19,6 +19,7 @@ mod verif_nx_filefmt {
             .lexer(DelphiLexer {})
             .parser(DelphiLogicalLineParser {})
             .file_formatter(TokenSpacing {})
+            .file_formatter(LowercaseKeywords {})
             .reconstructor(DelphiLogicalLinesReconstructor::new(ReconstructionSettings::new(LineEnding::Lf, TabKind::Soft, 2, 2)))
             .build();
         FileFormatter::new(f, enc)
@@ -204,7 +205,7 @@ mod verif_nx_filefmt {
         let dir = std::env::temp_dir().join(format!("verif_nx_ff_{}", std::process::id()));
         std::fs::create_dir_all(&dir).unwrap();
         let mut n = 0u64;
-        let inputs = ["a:=1;", "a   :=   1  ;      ", "a:=1;\n\n\n\n\n\n", "a :=\u{e9};", ""];
+        let inputs = ["a:=1;", "a   :=   1  ;      ", "a:=1;\n\n\n\n\n\n", "a :=\u{e9};", "", "BEGIN a; END", "begin a; end"];
         let cases: [(&'static Encoding, &[u8]); 4] = [
             (encoding_rs::UTF_8, &[]), (encoding_rs::UTF_8, &[0xEF, 0xBB, 0xBF]), (encoding_rs::UTF_16LE, &[0xFF, 0xFE]), (encoding_rs::UTF_16BE, &[0xFE, 0xFF]),
         ];
@@ -244,6 +245,6 @@ mod verif_nx_filefmt {
         n += 1;
         let _ = std::fs::remove_dir_all(&dir);
         println!("NX filefmt_files_mode: {} cases", n);
-        assert!(n >= 21, "enumeration ran");
+        assert!(n >= 29, "enumeration ran");
     }
 }
